@@ -95,6 +95,15 @@ def run_case(case):
         return {"key": outs, "nontrivial": False, "outcome": "codegen-exception(C01)", "violations": []}
     try:
         viols, stats = lpaccess.check_kernel(bp.program)
+    except AssertionError:
+        # loopy itself cannot process the kernel (e.g. expanding a substitution rule whose body is a bare bool constant
+        # trips pymbolic's arithmetic assertion): if no code can be generated from it there is no access to check --
+        # that failure is C01's subject (code generation never fails), not a memory-safety matter
+        try:
+            cexec.device_code(bp.program)
+        except Exception:  # noqa: BLE001
+            return {"key": outs, "nontrivial": False, "outcome": "loopy-cannot-generate-code(C01)", "violations": []}
+        raise
     except lpaccess.Unknown as e:
         return {"key": outs, "nontrivial": False, "outcome": "checker-unknown",
                 "violations": [{"sig": {"kind": "checker-cannot-decide", "why": str(e)[:60]},
